@@ -10,19 +10,26 @@ Conventions used in the clause generators below:
   zn0 = -1 (NO: near plane -> z_ndc = -1) or 0 (ZO: near plane -> z_ndc = 0); the far plane always -> +1
   `ndc_is(c, x, y, z)` (specs/rspec.py): clip point c has w > 0 and c.xyz == (x,y,z) * c.w (perspective divide without division)
 """
+import os, re
 from engine import Prop
+from vlib import REPO
 from shimgen import *
 
 P = Prop('C08', 'projection builders map the view volume onto the configured clip volume')
 # <glm/ext/matrix_transform.hpp> must come before matrix_projection.hpp: pickMatrix calls translate/scale, which that header does
 # not include itself (see report: header not self-contained)
 INC = ['<glm/glm.hpp>', '<glm/ext/matrix_transform.hpp>', '<glm/ext/matrix_clip_space.hpp>', '<glm/ext/matrix_projection.hpp>']
-d = P.driver('c08', INC)                 # suffixed builders, project/unProject/pickMatrix, compositions (default configuration)
+d = P.driver('c08', INC)                 # suffixed builders and their compositions (default configuration)
+dp = P.driver('c08_projection', INC)     # project / unProject / pickMatrix (default configuration)
 CFG_DEFINES = {'RH_NO': [], 'RH_ZO': ['GLM_FORCE_DEPTH_ZERO_TO_ONE'], 'LH_NO': ['GLM_FORCE_LEFT_HANDED'],
                'LH_ZO': ['GLM_FORCE_LEFT_HANDED', 'GLM_FORCE_DEPTH_ZERO_TO_ONE']}
 ddrivers = {cfg: P.driver('c08_' + cfg.lower(), INC) for cfg in CFG_DEFINES}     # dispatch shims, one driver+build per configuration
 CS = 'glm/ext/matrix_clip_space.inl'
 PJ = 'glm/ext/matrix_projection.inl'
+# glm::infinitePerspectiveLH / infinitePerspectiveRH are declared in matrix_clip_space.hpp but the tree under verification has
+# no definition (calling them is a link error, see proposed/C08_report.md and C08_infinitePerspective_LH_RH.patch).  A shim
+# that calls them cannot be linked for the T-check, so their dispatch contracts are generated only when the definition exists.
+INF_HALF_DEFINED = all(re.search(r'\binfinitePerspective%s\s*\(T fovy' % h, open(os.path.join(REPO, CS)).read()) for h in ('LH', 'RH'))
 contracts = []      # (fn, real, kw) on the default build
 dcontracts = []     # (cfg, fn, real, kw) on the dispatch builds
 
@@ -38,6 +45,10 @@ FOVY_DOMAIN = [('fovy_positive', 'fovy > 0'), ('fovy_below_pi', 'fovy * 10000000
 
 def R(fn, real, **kw):
     contracts.append((fn, real, kw))
+
+
+def RP(fn, real, **kw):
+    contracts.append((fn, real, dict(kw, build='c08_projection_flat')))
 
 
 def corner_clauses(xs, ys, zs, zn0, far_scale=None):
@@ -199,19 +210,23 @@ for tag in ('f32', 'f64'):
         'ortho_shaped_proj': (ins('pa', 'pb', 'pc', 'pd', 'pe', 'ph'), '%s(%s(1))' % (mat_t(4, 4, tag), T),
                               '%s(pa, Z, Z, Z,  Z, pb, Z, Z,  Z, Z, pe, Z,  pc, pd, ph, %s(1))'.replace('Z', '%s(0)' % T) % (mat_t(4, 4, tag), T),
                               'ident(4)', '[[pa, 0, 0, 0], [0, pb, 0, 0], [0, 0, pe, 0], [pc, pd, ph, 1]]'),
-        'frustum_shaped_proj_general_model': (MOD + ins('pa', 'pb', 'pc', 'pd', 'pe', 'pg', 'ph'), mat_make(4, 4, tag, 'm'),
-                                '%s(pa, Z, Z, Z,  Z, pb, Z, Z,  pc, pd, pe, pg,  Z, Z, ph, Z)'.replace('Z', '%s(0)' % T) % mat_t(4, 4, tag),
-                                'mat([%s], 4, 4)' % names(MOD), '[[pa, 0, 0, 0], [0, pb, 0, 0], [pc, pd, pe, pg], [0, 0, ph, 0]]'),
     }
     CHEAP = ('identity', 'diagonal', 'frustum_shaped_proj', 'ortho_shaped_proj')
+    # measured (z3 5.1 + sympy, timeout 300 s per clause): project decides at full generality in 1-3 s; unProject with one of the
+    # two matrices symbolic needs ~175 s (thorough); left out because UNKNOWN at 300 s (see P.not_covered): unProject with both
+    # matrices symbolic, unProject(project(.)) with a full symbolic 4x4 in either position
+    LEVELS = {'project': ('general', 'diagonal', 'identity'),
+              'unProject': CHEAP + ('proj_only', 'model_only'),
+              'roundtrip': CHEAP}
     for Z in ('NO', 'ZO'):
         zn0 = ZN0[Z]
         depth = '(c[2]/c[3] + 1)/2' if Z == 'NO' else 'c[2]/c[3]'
         for gen, (gins, cmod, cprj, smod, sprj) in GEN.items():
             CLIP = 'matvec(%s, matvec(%s, [o0, o1, o2, 1]))' % (sprj, smod)
             L = lambda body: '(lambda c: %s)(%s)' % (body, CLIP)
+            # shims exist at every level (T-check compares them with the real code); contracts only at the claimed levels
             fn = 'glm_project%s_%s_%s' % (Z, gen, tag)
-            d.shim(fn, 'void', OBJ + gins + VP, 'auto q = glm::project%s(%s, %s, %s, %s); %s' % (
+            dp.shim(fn, 'void', OBJ + gins + VP, 'auto q = glm::project%s(%s, %s, %s, %s); %s' % (
                 Z, V3('o'), cmod, cprj, vec_make(4, tag, 'v'), vec_store(3, 'q')), outs=O3)
             ens = [('window_x', L('out[0] == v0 + v2*(c[0]/c[3] + 1)/2')), ('window_y', L('out[1] == v1 + v3*(c[1]/c[3] + 1)/2')),
                    ('depth', L('out[2] == ' + depth))]
@@ -221,8 +236,14 @@ for tag in ('f32', 'f64'):
                         ens.append(('clip_cube_%s_%s_%s_corner_to_viewport_corner' % (zname, xname, yname),
                                     L('Implies(And(c[0] == %d*c[3], c[1] == %d*c[3], c[2] == %d*c[3]), '
                                       'And(out[0] == v0 + %d*v2, out[1] == v1 + %d*v3, out[2] == %d))' % (2 * xi - 1, 2 * yi - 1, zndc, xi, yi, zi))))
-            R(fn, 'glm::project%s (%s model/proj)  %s' % (Z, gen, PJ), requires=[('clip_w_nonzero', L('c[3] != 0'))], ensures=ens,
-              timeout=120)
+            if gen in LEVELS['project']:
+                RP(fn, 'glm::project%s (%s model/proj)  %s' % (Z, gen, PJ), requires=[('clip_w_nonzero', L('c[3] != 0'))], ensures=ens)
+            if gen == 'general' and tag == 'f32':     # integer viewport (glm::ivec4, the GLint viewport[4] of gluProject)
+                fn = 'glm_project%s_general_ivec4_viewport_%s' % (Z, tag)
+                dp.shim(fn, 'void', OBJ + gins + [('int32_t', 'v%d' % i) for i in range(4)],
+                       'auto q = glm::project%s(%s, %s, %s, glm::vec<4, int, glm::defaultp>(v0, v1, v2, v3)); %s' % (
+                           Z, V3('o'), cmod, cprj, vec_store(3, 'q')), outs=O3)
+                RP(fn, 'glm::project%s (ivec4 viewport)  %s' % (Z, PJ), requires=[('clip_w_nonzero', L('c[3] != 0'))], ensures=ens)
 
             # gluUnProject: the object point whose projection is win, i.e. proj*model*(result,1) is proportional to the
             # clip-space point q of win; domain: proj*model invertible, viewport not empty, the preimage is a finite point
@@ -232,26 +253,27 @@ for tag in ('f32', 'f64'):
             Q = '[2*(w0 - v0)/v2 - 1, 2*(w1 - v1)/v3 - 1, %s, 1]' % QZ
             UREQ = [('viewport_width_nonzero', 'v2 != 0'), ('viewport_height_nonzero', 'v3 != 0'), ('proj_times_model_invertible', 'det(%s) != 0' % PM)]
             fn = 'glm_unProject%s_%s_%s' % (Z, gen, tag)
-            d.shim(fn, 'void', WIN + gins + VP, 'auto q = glm::unProject%s(%s, %s, %s, %s); %s' % (
+            dp.shim(fn, 'void', WIN + gins + VP, 'auto q = glm::unProject%s(%s, %s, %s, %s); %s' % (
                 Z, V3('w'), cmod, cprj, vec_make(4, tag, 'v'), vec_store(3, 'q')), outs=O3)
-            R(fn, 'glm::unProject%s (%s model/proj)  %s' % (Z, gen, PJ),
-              requires=UREQ + [('preimage_is_a_finite_point', 'det(setcol(%s, 3, %s)) != 0' % (PM, Q))],
-              ensures=[('projects_back_to_win', 'And(proportional(matvec(%s, [out[0], out[1], out[2], 1]), %s))' % (PM, Q))],
-              tier='quick' if gen in CHEAP else 'thorough', timeout=300)
+            if gen in LEVELS['unProject']:
+                RP(fn, 'glm::unProject%s (%s model/proj)  %s' % (Z, gen, PJ),
+                  requires=UREQ + [('preimage_is_a_finite_point', 'det(setcol(%s, 3, %s)) != 0' % (PM, Q))],
+                  ensures=[('projects_back_to_win', 'And(proportional(matvec(%s, [out[0], out[1], out[2], 1]), %s))' % (PM, Q))],
+                  tier='quick' if gen in CHEAP else 'thorough', timeout=300)
             # unProject(project(obj)) == obj
             fn = 'glm_unProject%s_of_project%s_%s_%s' % (Z, Z, gen, tag)
-            d.shim(fn, 'void', OBJ + gins + VP, 'auto q = glm::unProject%s(glm::project%s(%s, %s, %s, %s), %s, %s, %s); %s' % (
+            dp.shim(fn, 'void', OBJ + gins + VP, 'auto q = glm::unProject%s(glm::project%s(%s, %s, %s, %s), %s, %s, %s); %s' % (
                 Z, Z, V3('o'), cmod, cprj, vec_make(4, tag, 'v'), cmod, cprj, vec_make(4, tag, 'v'), vec_store(3, 'q')), outs=O3)
-            R(fn, 'glm::unProject%s(glm::project%s(obj)) (%s model/proj)  %s' % (Z, Z, gen, PJ),
-              requires=UREQ + [('clip_w_nonzero', L('c[3] != 0'))],
-              ensures=[('roundtrip_is_identity', 'And(eqv(out, [o0, o1, o2]))')],
-              tier='quick' if gen in CHEAP else 'thorough', timeout=300)
+            if gen in LEVELS['roundtrip']:
+                RP(fn, 'glm::unProject%s(glm::project%s(obj)) (%s model/proj)  %s' % (Z, Z, gen, PJ),
+                  requires=UREQ + [('clip_w_nonzero', L('c[3] != 0'))],
+                  ensures=[('roundtrip_is_identity', 'And(eqv(out, [o0, o1, o2]))')])
 
     # gluPickMatrix: the pick region center +- delta/2 (window coordinates) becomes the whole clip square: its corners, written in
     # normalised device coordinates of `viewport`, go to x,y = -1/+1; z and w are untouched; no region (delta <= 0) -> identity
     PIN = ins('cx', 'cy', 'dx', 'dy') + VP
     fn = 'glm_pickMatrix_' + tag
-    d.shim(fn, 'void', PIN, 'auto m = glm::pickMatrix(glm::vec<2, %s, glm::defaultp>(cx, cy), glm::vec<2, %s, glm::defaultp>(dx, dy), %s); %s' % (
+    dp.shim(fn, 'void', PIN, 'auto m = glm::pickMatrix(glm::vec<2, %s, glm::defaultp>(cx, cy), glm::vec<2, %s, glm::defaultp>(dx, dy), %s); %s' % (
         T, T, vec_make(4, tag, 'v'), ST), outs=O16)
     pens = []
     for xi, xname in enumerate(('left', 'right')):
@@ -261,7 +283,7 @@ for tag in ('f32', 'f64'):
                          'Implies(And(dx > 0, dy > 0), (lambda c: And(c[3] == 1, c[0] == %d, c[1] == %d, c[2] == fresh("pz")))(hom(%s, %s)))' % (
                              2 * xi - 1, 2 * yi - 1, M, pt)))
     pens.append(('no_region_gives_identity', 'Implies(Not(And(dx > 0, dy > 0)), And(eqm(%s, ident(4))))' % M))
-    R(fn, 'glm::pickMatrix  ' + PJ, requires=[('viewport_width_positive', 'v2 > 0'), ('viewport_height_positive', 'v3 > 0')], ensures=pens)
+    RP(fn, 'glm::pickMatrix  ' + PJ, requires=[('viewport_width_positive', 'v2 > 0'), ('viewport_height_positive', 'v3 > 0')], ensures=pens)
 
     # ------------------------------------------------------------------ dispatch: one driver per configuration (the engine keys
     # contracts by shim name, so the configuration is part of the name); each shim stores the unsuffixed / half-suffixed
@@ -275,8 +297,9 @@ for tag in ('f32', 'f64'):
         dc = ddrivers[cfg]
         for fam, params in FAMILIES:
             args = ', '.join(params)
-            # (infinitePerspectiveLH/RH are declared in the header but never defined, see report)
-            halves = ('',) if fam == 'infinitePerspective' else ('', 'ZO', 'NO', 'LH', 'RH')
+            halves = ('', 'ZO', 'NO', 'LH', 'RH')
+            if fam == 'infinitePerspective':      # the header declares only infinitePerspective, ...LH and ...RH
+                halves = ('', 'LH', 'RH') if INF_HALF_DEFINED else ('',)
             for half in halves:
                 H, Z = (cH, cZ) if half == '' else (cH, half) if half in ('ZO', 'NO') else (half, cZ)
                 fn = 'glm_%s%s_cfg%s_is_%s_%s_%s' % (fam, half, cfg, H, Z, tag)
@@ -284,8 +307,35 @@ for tag in ('f32', 'f64'):
                     fam, half, args, ST, fam, H, Z, args, mat_store(4, 4, 'q', 'sel')), outs=O16 + [(T, 'sel', 16)])
                 dcontracts.append((cfg, fn, 'glm::%s%s under GLM_CLIP_CONTROL_%s  %s' % (fam, half, cfg, CS),
                                    dict(requires=FAMREQ[fam], ensures=[('equals_selected_variant_%s%s_%s' % (fam, H, Z), 'And(eqv(out, sel))')])))
+        # project / unProject select projectZO / unProjectZO iff GLM_FORCE_DEPTH_ZERO_TO_ONE (project at full generality; unProject
+        # at the levels whose division-safety obligations the solvers decide)
+        for gen in ('general',) + CHEAP:
+            gins, cmod, cprj, smod, sprj = GEN[gen]
+            CLIP = 'matvec(%s, matvec(%s, [o0, o1, o2, 1]))' % (sprj, smod)
+            PM = 'matmul(%s, %s)' % (sprj, smod)
+            Q = '[2*(w0 - v0)/v2 - 1, 2*(w1 - v1)/v3 - 1, %s, 1]' % ('2*w2 - 1' if cZ == 'NO' else 'w2')
+            O3S = [(T, 'out', 3), (T, 'sel', 3)]
+            if gen in LEVELS['project']:
+                fn = 'glm_project_cfg%s_is_%s_%s_%s' % (cfg, cZ, gen, tag)
+                a = '%s, %s, %s, %s' % (V3('o'), cmod, cprj, vec_make(4, tag, 'v'))
+                dc.shim(fn, 'void', OBJ + gins + VP, 'auto q = glm::project(%s); %s auto u = glm::project%s(%s); %s' % (
+                    a, vec_store(3, 'q'), cZ, a, vec_store(3, 'u', 'sel')), outs=O3S)
+                dcontracts.append((cfg, fn, 'glm::project under GLM_CLIP_CONTROL_%s  %s' % (cfg, PJ),
+                                   dict(requires=[('clip_w_nonzero', '(lambda c: c[3] != 0)(%s)' % CLIP)],
+                                        ensures=[('equals_selected_variant_project' + cZ, 'And(eqv(out, sel))')])))
+            if gen in CHEAP:
+                fn = 'glm_unProject_cfg%s_is_%s_%s_%s' % (cfg, cZ, gen, tag)
+                a = '%s, %s, %s, %s' % (V3('w'), cmod, cprj, vec_make(4, tag, 'v'))
+                dc.shim(fn, 'void', WIN + gins + VP, 'auto q = glm::unProject(%s); %s auto u = glm::unProject%s(%s); %s' % (
+                    a, vec_store(3, 'q'), cZ, a, vec_store(3, 'u', 'sel')), outs=O3S)
+                dcontracts.append((cfg, fn, 'glm::unProject under GLM_CLIP_CONTROL_%s  %s' % (cfg, PJ),
+                                   dict(requires=[('viewport_width_nonzero', 'v2 != 0'), ('viewport_height_nonzero', 'v3 != 0'),
+                                                  ('proj_times_model_invertible', 'det(%s) != 0' % PM),
+                                                  ('preimage_is_a_finite_point', 'det(setcol(%s, 3, %s)) != 0' % (PM, Q))],
+                                        ensures=[('equals_selected_variant_unProject' + cZ, 'And(eqv(out, sel))')])))
 
 flat = P.build(d, 'flat')
+P.build(dp, 'flat')
 for fn, real, kw in contracts:
     kw.setdefault('timeout', 120)
     P.contract(fn, real, kind='R', **kw)
